@@ -75,6 +75,10 @@ def judge(case, stats=None):
     out = []
     if case.get('kind') == 'string':
         return judge_string(case)
+
+    class IdsSub(NamespaceIds):  # pylint: disable=too-few-public-methods
+        """a user-defined subclass (e.g. one that adds helper methods)"""
+
     if case.get('kind') == 'idlist':
         return judge_idlist(case)
     decls = case['decls']
@@ -91,29 +95,37 @@ def judge(case, stats=None):
             want = sorted(id(o) for f, _k, o in objs if f in chain)
             if stats is not None and want:
                 stats['hits'] = stats.get('hits', 0) + 1
-            scope_obj = NamespaceIds(list(scope)) if scope is not None else None
-            name_obj = NamespaceIds(list(name))
-            res = ast_view.find_fqn(fct, name_obj, scope_obj)
-            got = sorted(id(o) for o in res.items)
-            if got != want:
-                bad('find_fqn', f'got {[str(o.fqn) for o in res.items]} '
-                                f'want {[".".join(f) for f, _k, o in objs if f in chain]}')
-            if name_obj.items != list(name) or (scope_obj is not None and scope_obj.items != list(scope)):
-                bad('find_fqn-mutated-args', f'name={name_obj.items} scope={scope_obj}')
-            # resolution order
-            scope_obj = NamespaceIds(list(scope)) if scope is not None else None
-            order = scoping.scope_resolution_order(NamespaceIds(list(name)), scope_obj)
-            if [tuple(x.items) for x in order] != chain:
-                bad('resolution-order', f'got {[str(x) for x in order]} want {chain}')
-            if scope_obj is not None and scope_obj.items != list(scope):
-                bad('resolution-order-mutated-scope', f'scope now {scope_obj.items}')
-            if any(x is scope_obj for x in order):
-                bad('resolution-order-aliases-scope', '')
-            if len(order) > 1:
-                snap = [list(x.items) for x in order]
-                order[0].items.append('zz')
-                if [list(x.items) for x in order[1:]] != snap[1:]:
-                    bad('resolution-order-elements-alias-each-other', '')
+            # REPRESENTATION: the arguments as instances of a user-defined SUBCLASS of NamespaceIds (accepted wherever a
+            # NamespaceIds is): same hits, same candidates, candidates equal to the plain FQNs of the same identifiers
+            for form, scope_cls, name_cls in (('', NamespaceIds, NamespaceIds), (':scope-subclass', IdsSub, NamespaceIds),
+                                              (':name-subclass', NamespaceIds, IdsSub), (':both-subclass', IdsSub, IdsSub)):
+                if form and scope is None and scope_cls is IdsSub:
+                    continue
+                scope_obj = scope_cls(list(scope)) if scope is not None else None
+                name_obj = name_cls(list(name))
+                res = ast_view.find_fqn(fct, name_obj, scope_obj)
+                got = sorted(id(o) for o in res.items)
+                if got != want:
+                    bad('find_fqn' + form, f'got {[str(o.fqn) for o in res.items]} '
+                                    f'want {[".".join(f) for f, _k, o in objs if f in chain]}')
+                if name_obj.items != list(name) or (scope_obj is not None and scope_obj.items != list(scope)):
+                    bad('find_fqn-mutated-args', f'name={name_obj.items} scope={scope_obj}')
+                # resolution order
+                scope_obj = scope_cls(list(scope)) if scope is not None else None
+                order = scoping.scope_resolution_order(name_cls(list(name)), scope_obj)
+                if [tuple(x.items) for x in order] != chain:
+                    bad('resolution-order' + form, f'got {[str(x) for x in order]} want {chain}')
+                if scope_obj is not None and scope_obj.items != list(scope):
+                    bad('resolution-order-mutated-scope', f'scope now {scope_obj.items}')
+                if any(x != NamespaceIds(list(x.items)) or NamespaceIds(list(x.items)) != x for x in order):
+                    bad('resolution-order-candidates-unequal-to-plain-fqn' + form, f'{[type(x).__name__ for x in order]}')
+                if any(x is scope_obj for x in order):
+                    bad('resolution-order-aliases-scope', '')
+                if len(order) > 1:
+                    snap = [list(x.items) for x in order]
+                    order[0].items.append('zz')
+                    if [list(x.items) for x in order[1:]] != snap[1:]:
+                        bad('resolution-order-elements-alias-each-other', '')
             # suffix search (scope irrelevant): only once per name
             if scope is None:
                 res = ast_view.find_any(fct, NamespaceIds(list(name)))
